@@ -492,7 +492,7 @@ func caseKey(c any) string {
 
 // withHangConfirmation runs one case; a failure of a time clause is confirmed by re-executing
 // the same case before it is reported, otherwise the case counts as overloaded.
-func withHangConfirmation(c any, run func() (ev.Outcome, bool)) ev.Outcome {
+func withHangConfirmation(prop string, c any, run func() (ev.Outcome, bool)) ev.Outcome {
 	key := caseKey(c)
 	if o, ok := hangMemo.Load(key); ok {
 		return o.(ev.Outcome)
@@ -523,6 +523,13 @@ func withHangConfirmation(c any, run func() (ev.Outcome, bool)) ev.Outcome {
 		return o2
 	}
 	// keep what the non-reproduced time-clause failure looked like (diagnosis of the harness)
+	if prop != "" {
+		v := o.Fail
+		if len(v) > 600 {
+			v = v[:600]
+		}
+		ev.Get(prop).SetExtra("unreproduced_time_clause_failure_sample", map[string]any{"verdict": v, "case": c})
+	}
 	if dir := os.Getenv("MUXDEBUG"); dir != "" {
 		b, _ := json.MarshalIndent(map[string]any{"case": c, "verdict": o.Fail, "history": o.History}, "", " ")
 		_ = os.WriteFile(filepath.Join(dir, fmt.Sprintf("overloaded-%d-%d.json", os.Getpid(), time.Now().UnixNano())), b, 0o644)
